@@ -692,3 +692,14 @@ Proof.
   intros E. apply (Hno (last row c0)); [|symmetry; exact E].
   apply last_In. destruct row; [discriminate|discriminate].
 Qed.
+
+(* ================================================================== regenerated decision tokens *)
+Lemma lagcmp_ok_sound d : lagcmp_spec_ok d = true -> forall a b, eval_lagcmp d a b = lag_above a b.
+Proof.
+  destruct d as [l o r]. destruct l, o, r; simpl; try discriminate; intros _ a b;
+    unfold eval_lagcmp, lag_above; simpl; lia.
+Qed.
+Theorem rt_row_gen d u lags e : lagcmp_spec_ok d = true -> rt_row_with (eval_lagcmp d) u lags e = rt_row u lags e.
+Proof.
+  intros H. unfold rt_row, rt_row_with. f_equal. apply filter_ext. intros a. apply lagcmp_ok_sound, H.
+Qed.
